@@ -112,6 +112,7 @@ pub struct FGen<'a> {
     pub cfg: Option<KCfg>,
     pub dead: bool,
     pub ops: usize,
+    pub last_line: String,
 }
 
 fn opt(x: Option<i128>) -> String {
@@ -121,6 +122,7 @@ fn opt(x: Option<i128>) -> String {
 impl<'a> FGen<'a> {
     pub fn emit(&mut self, line: String) -> String {
         let o = self.ex.exec(&line);
+        self.last_line = line.clone();
         self.check(&line, &o);
         self.out.op(&line, &o);
         self.ops += 1;
@@ -336,7 +338,7 @@ pub fn scenario(g: &mut FGen, rng: &Prng, max_len: usize) {
 
 pub fn generate(out: &mut Out, rng: &Prng, thorough: bool) {
     let scenarios = if thorough { 20_000 } else { 1_500 };
-    let mut g = FGen { ex: FiltExec::default(), out, cfg: None, dead: false, ops: 0 };
+    let mut g = FGen { ex: FiltExec::default(), out, cfg: None, dead: false, ops: 0, last_line: String::new() };
     for _ in 0..scenarios {
         scenario(&mut g, rng, if thorough { 400 } else { 120 });
     }
